@@ -22,6 +22,9 @@ CFG = {
         "Leptos.View.C03_style_overwrite_witness",
         "Leptos.View.C03_dup_item_witness",
         "Leptos.View.C03_dup_item_rename_witness",
+        "Leptos.View.C03_nodeless_old_branch_witness",
+        "Leptos.View.C03_nodeless_old_branch_witness_opt_any",
+        "Leptos.View.roots_ne_nil",
         "Leptos.View.C03_any_identical_value_fixed",
         "Leptos.View.C03_any_identical_value_witness_old",
         "Leptos.View.C03_toggle_rename_fixed",
@@ -40,7 +43,10 @@ CFG = {
     "harness_bin": "c03",
     "n": {"quick": 40000, "thorough": 600000},
     "trivial_tags": ["unit", "unmount", "text-same"],
-    "rule": "seeded generator over a closed family of ~75 concrete tachys view types (every combinator: String, (), tuples "
+    "rule": "(widened after seed round 2: text children of type String / &'static str / Cow<'static,str> / Arc<str> whose successive values "
+            "are fresh allocations or prefix / suffix / identical / whole slices of ONE interned buffer; arrays [T; N] incl. the node-less "
+            "[T; 0] as first / middle / last tuple member and inside the old branch of Either / EitherOf3 / Option / AnyView switches) "
+            "seeded generator over a closed family of ~120 concrete tachys view types (every combinator: String, (), tuples "
             "of arity 1-4, Option, Either, EitherOf3, Vec, AnyView incl. nested, HtmlElement<Div|Span|P|Ul|Li|Input|Br> with "
             "String / Option<String> / bool attribute values, class (String, Option<String>, (name, bool)) and style (String, "
             "(name, value), (name, Option<value>)) items, nested to depth 4); a case = generated pre/post siblings, build+mount "
@@ -57,7 +63,13 @@ CFG = {
     "modelled": ["Rndr (native DOM: insert_node, remove, set_text, set/remove_attribute, classList add/remove, style "
                  "setProperty/removeProperty)", "Render::{build,rebuild} and Mountable::{mount,unmount,insert_before_this} "
                  "for String, (), tuples, Option, Either/EitherOfN, Vec, AnyView, HtmlElement, Attr<K,String|Option<String>|bool>, "
-                 "Class<String|Option<String>|(&str,bool)>, Style<String|(String,String)|(String,Option<String>)>"],
+                 "Class<String|Option<String>|(&str,bool)>, Style<String|(String,String)|(String,Option<String>)>",
+                 "[T; N] incl. N = 0 (ArrayState = tuple semantics; values are View.tuple of type Ty.arr n t)",
+                 "text children &'static str / Cow<'static,str> / Arc<str> (one text type in the model: a rebuild may depend on contents "
+                 "only; Arc<str> values are interned by contents in the harness because its rebuild compares pointers)",
+                 "NOT modelled in C03 (shared View/State/Ty inductives are imported by C05 and kept as they are): StaticVec / Fragment "
+                 "(StaticVec::rebuild re-mounts at the END of its parent, outside the property at HEAD; C05 models it on the side as "
+                 "FragState), keyed lists (C11)"],
     "assumptions": ["states are mounted (rebuild of a never-mounted Vec panics in Rndr::mount_before; not part of the property)",
                     "attribute names are the lower-case AttributeKey constants; class tokens are non-empty without whitespace",
                     "strings contain no non-ASCII whitespace (str::trim in the style parser is modelled for the Unicode "
